@@ -967,6 +967,49 @@ func run(c *lib.Ctx) {
 			})
 		})
 	}
+	// ---- G6c the same iterator goes from skip-scan mode to a plain range and
+	// back (Range / SkipScan mid-way), then continues over a new overlay object
+	// or its own modified layer: the mode must not leak from one into the other
+	if want("G6c") {
+		u := us
+		lines := []string{"...", "P..", ".a."}
+		skip := []rangeSpec{
+			{Org: ixkey.Min, End: ixkey.Max, Skip: true, SOrg: "s", SEnd: "s\x01"},
+			{Org: "q", End: "q\x01", Skip: true, SOrg: ixkey.Min, SEnd: "u"},
+		}
+		plain := []rangeSpec{{Org: ixkey.Min, End: ixkey.Max}, {Org: "\x01", End: "q"}, {Org: "q", End: ixkey.Max}}
+		rngs := append(append([]rangeSpec{}, plain...), skip...) // r0..r2 plain, r3 r4 skip-scan
+		toks := []string{"N", "P", "r0", "r1", "r2", "r3", "r4", "I", "t1", "t4"}
+		strs := opStrings(toks, 5, func(s []string) bool {
+			nr, change := 0, false
+			for i, t := range s {
+				if t[0] == 'r' {
+					nr++
+					if i == 0 || i == len(s)-1 {
+						return false
+					}
+				}
+				if t == "I" || t[0] == 't' {
+					change = true
+				}
+			}
+			return nr >= 1 && nr <= 2 && change && s[len(s)-1] != "I" && s[len(s)-1][0] != 't'
+		})
+		c.Set("G6c_mode_change_strings", len(strs))
+		var stacks [][]string
+		cross(lines, 6, func(sel []string) { stacks = append(stacks, sel) })
+		c.Par(len(stacks), func(i int) {
+			if quick && i%3 != 0 {
+				return
+			}
+			for _, rg := range append(append([]rangeSpec{}, skip...), plain[0]) {
+				if c.Expired() {
+					return
+				}
+				r.sweep(caseSpec{Group: "skip-scan-range-change", Universe: u.Name, Lines: stacks[i], WithMut: true, Rng: rg, Rngs: rngs}, strs)
+			}
+		})
+	}
 	// ---- G6b skip-scan over 3 prefix groups x 3 suffixes (a whole group between two others can be skipped)
 	if want("G6b") {
 		u := us3
